@@ -51,13 +51,13 @@ print("A=", A.tolist(), "b=", B.tolist(), "rc=", rc, "det=", d, "cond=", cond, "
 if rc != 0.0:
     # claimed singular: violated if A is clearly non-singular
     if abs(d) > 1e-9*scale**n and cond < 1e8:
-        sys.exit(common.replay_exit("gj_solve returned %s for a non-singular, well conditioned matrix" % rc))
+        sys.exit(common.replay_exit("gj_solve returned %%s for a non-singular, well conditioned matrix" %% rc))
     sys.exit(common.replay_exit(None))
 x = np.array(res).reshape(n, nb)
 r = np.abs(A.dot(x) - B).max()
 ref = np.abs(A).max()*np.abs(x).max() + np.abs(B).max()
 if not np.isfinite(r) or r > 1e-8*cond*max(ref, 1e-300):
-    sys.exit(common.replay_exit("residual %r too large for conditioning %r" % (r, cond)))
+    sys.exit(common.replay_exit("residual %%r too large for conditioning %%r" %% (r, cond)))
 sys.exit(common.replay_exit(None))
 '''
 
